@@ -83,6 +83,15 @@ func (w *World) AttachFaults(run *explore.Run, only func(c *Call) bool) *[]Injec
 	return &taken
 }
 
+// WritesAndProvider restricts fault points to API writes and provider calls (reads never fail).
+func WritesAndProvider(c *Call) bool {
+	switch c.Verb {
+	case "get", "list":
+		return false
+	}
+	return true
+}
+
 func joinNote(a, b string) string {
 	if a == "" {
 		return b
